@@ -202,10 +202,11 @@ func readState(st *stor.Stor, off uint64) (offSchema, offInfo uint64, t int64) {
 	if string(buf[:i]) != magic1 {
 		return 0, 0, 0
 	}
-	cksum.MustCheck(buf[:magic2at])
+	// check magic2 first, magic1 can occur in data
 	if string(buf[magic2at:magic2at+len(magic2)]) != magic2 {
 		return 0, 0, 0
 	}
+	cksum.MustCheck(buf[:magic2at])
 	t = int64(binary.BigEndian.Uint64(buf[i:]))
 	i += dateSize
 	offSchema = stor.ReadSmallOffset(buf[i:])
